@@ -15,6 +15,7 @@ pub const REPLAY: &[(&str, fn(&mut vsrc::ReplaySrc))] = &[
     ("c11_next_prefix_p4", |s| c11::next_prefix_contract::<_, 4>(s)),
     ("c36_coin_step", |s| c36::coin_step(s)),
     ("c36_message_step", |s| c36::message_step(s)),
+    ("c36_to_spend_step", |s| c36::to_spend_step(s)),
 ];
 
 pub fn noop() {}
